@@ -4,6 +4,7 @@ package main
 // behaviour is "total, does not panic, result shaped as stated".
 
 import (
+	"math/big"
 	"go/types"
 
 	"golang.org/x/tools/go/ssa"
@@ -128,7 +129,6 @@ func init() {
 	simple("crypto/rand.Int", "rand.Int: a non-nil integer or an error", optErrOrVal)
 	simple("math/big.NewInt", "big.NewInt: non-nil", optNonNil)
 	simple("(*math/big.Int).Lsh", "big.Int.Lsh: returns its (non-nil) receiver", optNonNil)
-	simple("(*math/big.Int).Cmp", "big.Int.Cmp: -1, 0 or +1; total for non-nil operands")
 	simple("github.com/spf13/afero.NewMemMapFs", "afero.NewMemMapFs: a non-nil in-memory filesystem", optNonNil)
 	simple("github.com/spf13/afero.NewOsFs", "afero.NewOsFs: a non-nil filesystem", optNonNil)
 	simple("golang.org/x/text/encoding/unicode.UTF16", "unicode.UTF16: a non-nil encoding", optNonNil)
@@ -139,8 +139,6 @@ func init() {
 	simple("golang.org/x/sys/unix.IoctlSetPointerInt", "ioctl wrapper: nil or error")
 	simple("encoding/pem.Encode", "pem.Encode: writes to the writer; nil or the writer's error", optHavoc)
 	simple("(encoding/asn1.ObjectIdentifier).Equal", "ObjectIdentifier.Equal: total predicate")
-	simple("(golang.org/x/crypto/cryptobyte/asn1.Tag).ContextSpecific", "asn1.Tag.ContextSpecific: total")
-	simple("(golang.org/x/crypto/cryptobyte/asn1.Tag).Constructed", "asn1.Tag.Constructed: total")
 	simple("(*debug/pe.File).Close", "pe.File.Close: nil or error")
 	simple("(time.Time).IsZero", "Time.IsZero: total predicate")
 
@@ -250,6 +248,44 @@ func init() {
 		outs = append(outs, Outcome{st, TupleV{TV{SInt, sLen(SSeqI, s)}, nilErr()}})
 		return outs
 	}
+	tagBit := func(name, doc string, bit int64) {
+		ext("(golang.org/x/crypto/cryptobyte/asn1.Tag)."+name, doc,
+			func(x *Exec, st *State, fr *Frame, cc *ssa.CallCommon, args []Val, instr ssa.Instruction) []Outcome {
+				t := x.toTV(st, args[0], types.Typ[types.Uint8]).E
+				if v, ok := isNum(t); ok {
+					return one(st, TV{SInt, numLit(new(big.Int).Or(v, big.NewInt(bit)))})
+				}
+				has := tEq(tModC(tDivC(t, big.NewInt(bit)), big.NewInt(2)), "1")
+				return one(st, TV{SInt, tIte(has, t, tAdd(t, num(bit)))})
+			})
+	}
+	tagBit("ContextSpecific", "asn1.Tag.ContextSpecific: the tag with bit 0x80 set", 0x80)
+	tagBit("Constructed", "asn1.Tag.Constructed: the tag with bit 0x20 set", 0x20)
+	ext("(*math/big.Int).Cmp", "big.Int.Cmp(a, b): -1, 0 or +1 by the mathematical values of a and b (the abstract value of a big.Int); panics for a nil operand",
+		func(x *Exec, st *State, fr *Frame, cc *ssa.CallCommon, args []Val, instr ssa.Instruction) []Outcome {
+			a, ok1 := args[0].(PtrV)
+			b, ok2 := args[1].(PtrV)
+			if !ok1 || !ok2 || a.Ref == "" || b.Ref == "" || len(a.Path) != 0 || len(b.Path) != 0 {
+				r := st.fresh("cmp", SInt)
+				st.assume(tAnd(tCmp("<=", "-1", r), tCmp("<=", r, "1")))
+				return one(st, TV{SInt, r})
+			}
+			x.nilCheck(st, fr, a, instr)
+			x.nilCheck(st, fr, b, instr)
+			d := x.w.DTByName(a.RootSort)
+			i := -1
+			if d != nil {
+				i = d.FieldIndex("abs__")
+			}
+			if i < 0 {
+				r := st.fresh("cmp", SInt)
+				st.assume(tAnd(tCmp("<=", "-1", r), tCmp("<=", r, "1")))
+				return one(st, TV{SInt, r})
+			}
+			va := d.Get(i, st.heapSelect(a.RootSort, a.Ref))
+			vb := d.Get(i, st.heapSelect(b.RootSort, b.Ref))
+			return one(st, TV{SInt, tIte(tCmp("<", va, vb), "-1", tIte(tEq(va, vb), "0", "1"))})
+		})
 	ext("(*crypto/x509.Certificate).CheckSignature", "Certificate.CheckSignature(algo, signed, sig): nil iff sig is a valid signature of signed under the certificate's public key with that algorithm (uninterpreted predicate sigvalid); never panics for a non-nil certificate",
 		func(x *Exec, st *State, fr *Frame, cc *ssa.CallCommon, args []Val, instr ssa.Instruction) []Outcome {
 			p, _ := args[0].(PtrV)
